@@ -904,12 +904,17 @@ def g4(ctx, R):
     blk = pending_block(ctx, R)
     n = 0
     for st in walk_no_nested(cna.node):
-        if not (isinstance(st, (ast.Assign, ast.AugAssign))):
+        if isinstance(st, (ast.Assign, ast.AugAssign)):
+            tg = st.targets[0] if isinstance(st, ast.Assign) else st.target
+            val = st.value
+        elif isinstance(st, ast.Expr) and isinstance(st.value, ast.Call) and isinstance(st.value.func, ast.Attribute) \
+                and st.value.func.attr in ("append", "extend") and st.value.args:
+            tg = st.value.func.value  # <container>[<slot>].append(value)
+            val = st.value.args[0]
+        else:
             continue
-        tg = st.targets[0] if isinstance(st, ast.Assign) else st.target
         if not (isinstance(tg, ast.Subscript) and isinstance(tg.value, ast.Attribute) and tg.value.attr in ("arguments", "extra_arguments")):
             continue
-        val = st.value
         if isinstance(val, ast.List) and not val.elts:
             continue  # initialisation of the testlist container
         n += 1
@@ -947,7 +952,7 @@ def g4(ctx, R):
                 if const_value(ctx.program, cna, cp[0]) == "values":
                     return (cp[1] == "NotIn") == pol  # slot has no value restriction
             return False
-        is_testlist = any(isinstance(x, ast.List) for x in ast.walk(val)) or isinstance(st, ast.AugAssign)
+        is_testlist = any(isinstance(x, ast.List) for x in ast.walk(val)) or isinstance(st, (ast.AugAssign, ast.Expr))
         t_ok = all(cfg.guarded(x, type_ok) for x in nodes)
         v_ok = True if is_testlist else all(cfg.guarded(x, value_ok) for x in nodes)
         if t_ok and v_ok:
